@@ -5,7 +5,7 @@ import os
 from .common import run, log
 
 
-def run_lines(exe, lines, timeout=300, env=None, args=()):
+def run_lines(exe, lines, timeout=60, env=None, args=()):
     """Returns (rc, list of output lines, stderr)."""
     data = ("\n".join(lines) + "\n").encode()
     rc, o, e = run([exe] + list(args), timeout=timeout, input=data, env=env)
@@ -22,7 +22,7 @@ def first_diff(a, b):
     return None
 
 
-def both(harness_exe, driver_exe, lines, timeout=300, env=None):
+def both(harness_exe, driver_exe, lines, timeout=60, env=None):
     rc1, o1, e1 = run_lines(harness_exe, lines, timeout, env)
     rc2, o2, e2 = run_lines(driver_exe, lines, timeout)
     return (rc1, o1, e1), (rc2, o2, e2)
